@@ -136,7 +136,7 @@ pub fn reference(scn: &Scenario) -> Ref {
             clones.push(x.id);
             x = clone_fn(x);
             work += 1;
-        } else if matches!(scn.src, Src::Range | Src::BMap) {
+        } else if matches!(scn.src, Src::Range | Src::BMap | Src::SliceCopied) {
             calls.push((STAGE_SRC, x.id, 0));
         }
         let before = finals.len();
